@@ -635,6 +635,15 @@ func (b Browse) ServeArchive(w http.ResponseWriter, r *http.Request, dirPath str
 			return nil
 		}
 
+		// symbolic links, sockets, devices and pipes cannot be archived
+		// through the jailed file system (archiver needs the real source
+		// path of a link and refuses sockets); leave them out instead of
+		// breaking off the whole archive
+		if !info.Mode().IsRegular() && !info.IsDir() {
+			log.Printf("[WARNING] browse: not archiving %q: not a regular file or directory", path)
+			return nil
+		}
+
 		var file io.ReadCloser
 		if info.Mode().IsRegular() {
 			file, err = bc.Fs.Root.Open(path)
